@@ -28,7 +28,8 @@ ASSUMPTIONS = [
 RULE = ("cases = scripted schedules from one PRNG (VERIF_SEED) over 127.0.0.1:0 sockets / Go channels: kinds tcp (1-3 senders), relaxed, "
         "chan (OutputChan and plain producers into InputChan or CustomInChan); receive queue size 0-3; 15-60 driver steps: sender write / "
         "pre-commit / commit / abort, receiver read / commit / abort / length, with aborts on both sides, pre-commit time-outs forced by a "
-        "full receive queue, large values that fill the socket buffers (write time-out, reconnect); every case ends with a drain. "
+        "full receive queue, large values that fill the socket buffers (write time-out, reconnect), relaxed-mailbox bursts of 15-90 messages "
+        "written back to back into a queue of 1-3 with a slow receiver and a 1 s write time-out (back-pressure without any time-out); every case ends with a drain. "
         "Non-trivial = >= 2 senders or >= 1 abort on each side; distinct by canonical op text.")
 
 READ_MS, WRITE_MS, DIAL_MS = 20, 60, 150
@@ -341,8 +342,10 @@ def oracle(case, ops, out):
     got = []                              # (sender, msg) obtained by committed receiver sections, in order
     inprog = []
     redeliver = []
-    write_aborted = [False] * n
-    lost_possible = True
+    conn_of = {}                          # message -> connection of its sender it was written to (read-only hook)
+    switch_ok = {}                        # (sender, connection) -> a write of that sender timed out right before it was opened
+    last_conn = [None] * n
+    pending_abort = [False] * n
 
     def owner(m):
         return m // 1000
@@ -358,12 +361,17 @@ def oracle(case, ops, out):
         if name in ("w", "big"):
             s = op[1]
             if st == "ok":
+                cn = r.get("conn") or ""
+                conn_of[op[2]] = cn
+                if last_conn[s] is not None and cn != last_conn[s]:
+                    switch_ok[(s, cn)] = pending_abort[s]
+                last_conn[s] = cn; pending_abort[s] = False
                 if kinds[s] == "relaxed":
                     sent[s].append([op[2]])
                 else:
                     cur[s].append(op[2])
             else:
-                write_aborted[s] = True
+                pending_abort[s] = True
                 cur[s] = []
         elif name == "pc":
             if st != "ok":
@@ -394,7 +402,7 @@ def oracle(case, ops, out):
                 gs = [m for m in got if owner(m) == s]
                 fs = flat(s)
                 if gs != fs[:len(gs)]:
-                    fails.append((classify(case, gs, fs, write_aborted[s]), "after step %d the committed receiver sections hold %s from sender %d, its committed sections sent %s" % (k, gs, s, fs)))
+                    fails.append((classify(case, gs, fs, s, conn_of, switch_ok), "after step %d the committed receiver sections hold %s from sender %d, its committed sections sent %s" % (k, gs, s, fs)))
                     return fails
         elif name == "ra":
             redeliver = inprog + redeliver; inprog = []
@@ -412,7 +420,7 @@ def oracle(case, ops, out):
             gs = [m for m in got if owner(m) == s]
             fs = flat(s)
             if gs != fs:
-                fails.append((classify(case, gs, fs, write_aborted[s], final=True), "after the drain the receiver holds %s from sender %d, its committed sections sent %s" % (gs, s, fs)))
+                fails.append((classify(case, gs, fs, s, conn_of, switch_ok, final=True), "after the drain the receiver holds %s from sender %d, its committed sections sent %s" % (gs, s, fs)))
                 return fails
     # contiguity of the sections of TCP senders in the receiver's sequence
     if case["kind"] == "tcp":
@@ -433,20 +441,37 @@ def oracle(case, ops, out):
     return fails
 
 
-def classify(case, gs, fs, write_aborted, final=False):
+def classify(case, gs, fs, s, conn_of, switch_ok, final=False):
+    """signature of a per-sender sequence mismatch.  The known finding is recognised only by what is specific to it: a
+    relaxed sender whose write really timed out, which then really opened a new connection (identity of the sender's
+    socket, read through the verif hook), and a pure overtaking of messages of an older connection by messages of a
+    newer one - the order inside every single connection intact, nothing lost, nothing twice.  Anything else on a
+    relaxed mailbox (in particular any reordering on a single connection, the class relaxed_fifo_single_connection
+    covers) has its own signature and is a violation."""
     kind = case["kind"]
     if len(set(gs)) < len(gs):
         return "duplicated:" + kind
     if any(m not in fs for m in gs):
         return "invented-or-aborted-delivered:" + kind
-    if final and len(gs) < len(fs) and gs == fs[:len(gs)]:
-        return "lost:" + kind
     if final and len(gs) < len(fs) and gs == [m for m in fs if m in gs]:
         return "lost:" + kind
     # every message is one the sender committed, none twice, but not in the order sent
-    if kind == "relaxed" and write_aborted:
-        return "relaxed-reorder-after-write-timeout-reconnect"
-    return "reordered:" + kind
+    if kind != "relaxed":
+        return "reordered:" + kind
+    conns = []
+    for m in fs:
+        c = conn_of.get(m, "")
+        if c not in conns:
+            conns.append(c)
+    if len(conns) <= 1 or "" in conns:
+        return "reordered:relaxed-single-connection"
+    for c in conns:
+        rc_ = [m for m in gs if conn_of.get(m) == c]
+        if rc_ != [m for m in fs if conn_of.get(m) == c][:len(rc_)]:
+            return "reordered:relaxed-within-connection"
+    if not all(switch_ok.get((s, c), False) for c in conns[1:]):
+        return "reordered:relaxed-reconnect-without-timeout"
+    return "relaxed-reorder-after-write-timeout-reconnect"
 
 
 def nontrivial(case, ops, out):
@@ -568,6 +593,8 @@ def run(ctx):
         for k in range(1 if ctx.tier == "quick" else 3):
             cases.append(gen_backpressure(rng, True))
             cases.append(gen_backpressure(rng, False))
+        for k in range(8 if ctx.tier == "quick" else 60):
+            cases.append(gen_relaxed_burst(rng, ctx.tier))
     for k, c in enumerate(cases):
         c["id"] = k
     plain = cases
@@ -601,6 +628,7 @@ def run(ctx):
         dist[c["kind"]] += 1
         dist["oracle_only_racy"] = dist.get("oracle_only_racy", 0) + (1 if c.get("racy") or c["ops"][0][0] == "fill" else 0)
         dist["custom_in_chan"] += 1 if c.get("custom") else 0
+        dist["relaxed_backpressure_no_timeout"] = dist.get("relaxed_backpressure_no_timeout", 0) + (1 if c.get("burst") else 0)
         dist["steps"] += len(ops)
         dist["sender_aborts"] += sum(1 for op in ops if op[0] == "a")
         dist["precommit_timeouts"] += sum(1 for op, r in zip(ops, rs) if op[0] == "pc" and r["st"] == "abort")
